@@ -12,7 +12,7 @@ LEVEL_TEXT = (
     'is the structural half of "every linearizable history is sequentially consistent". The iff is '
     'NOT decided.')
 
-FLOORS = {'C14-R1': 9, 'C14-R3': 8, 'C14-R4': 4, 'C14-R5': 2, 'C14-R6': 1}
+FLOORS = {'C14-R1': 9, 'C14-R3': 8, 'C14-R4': 4, 'C14-R5': 2, 'C14-R6': 2}
 
 
 def prune_profile(F, ty):
@@ -50,6 +50,7 @@ def run(ctx):
                       'depend on every input (object state, remaining history, in-flight operations)')
     with ctx.rule('C14-R6', T.SC):
         T.search_is_pure_or_memo_complete(ctx, F, T.SC, 'C14-R6')
+        T.candidates_are_independent(ctx, F, T.SC, 'C14-R6')
     c04.rule_r5(ctx, F, rule='C14-R4', types=[T.LIN, T.SC])
     for ty in (T.LIN, T.SC):
         ims = [im for im in F.impls_of('Clone') if im['self_tree'].get('path') == ty]
